@@ -170,7 +170,10 @@ func runControls() []string {
 	swallow := false
 	for _, lf := range returnLeaves(fn("Swallows"), 0) {
 		if isNilConst(lf.Val) && lf.GuardedBy(func(g Guard) bool {
-			return gNil(g, true, func(v ssa.Value) bool { cc, _ := originCall(v); return cc != nil && nameMatches(callName(cc.Common()), "controls.commit") })
+			return gNil(g, true, func(v ssa.Value) bool {
+				cc, _ := originCall(v)
+				return cc != nil && nameMatches(callName(cc.Common()), "controls.commit")
+			})
 		}) {
 			swallow = true
 		}
